@@ -255,7 +255,8 @@ class StageableMixin:
         self.staged_count = getattr(self, "staged_count", 0) + 1
         if self.spec.get("stage_status"):
             return self._status("stage", f, n)
-        return [self]
+        # like ophyd: staging a device stages its components and reports all of them
+        return [self] + [d for d in self.world.values() if getattr(d, "parent", None) is self]
 
     def unstage(self):
         f, n = self._enter("unstage")
@@ -608,4 +609,7 @@ def build_world(sim, specs):
         spec = dict(spec)
         spec.setdefault("hash", 1000 + i)
         world[name] = KINDS[spec["kind"]](sim, name, spec, world)
+    for name, spec in specs.items():
+        if spec.get("parent"):
+            world[name].parent = world[spec["parent"]]
     return world
